@@ -5,6 +5,8 @@ mod interp;
 mod mutate;
 mod oracles;
 mod props;
+mod props2;
+mod props3;
 mod rng;
 
 use std::io::{BufRead, Write};
@@ -66,10 +68,17 @@ fn main() {
             match prop.as_str() {
                 "C01" => props::c01(&mut c, &b),
                 "C02" => props::c02(&mut c, &b),
+                "C03" => props2::c03(&mut c, &b),
                 "C04" => props::c04(&mut c, &b),
                 "C05" => props::c05(&mut c, &b),
                 "C06" => props::c06(&mut c, &b),
                 "C07" => props::c07(&mut c, &b),
+                "C08" => props2::c08(&mut c, &b),
+                "C12" => props2::c12(&mut c, &b),
+                "C13" => props2::c13(&mut c, &b),
+                "C14" => props2::c14(&mut c, &b),
+                "C15" => props2::c15(&mut c, &b),
+                "C16" => props3::c16(&mut c, &b),
                 _ => { eprintln!("unknown property {}", prop); std::process::exit(2); }
             }
             std::fs::create_dir_all(&outdir).unwrap();
